@@ -95,11 +95,25 @@ impl ConstructorName<'_> {
     }
 }
 
+//@[ C05 ghost: the identifiers a validated file defines at the top level of the emitted module
+pub open spec fn defined_id(f: File, a: Seq<char>) -> bool {
+    ||| exists|i: int| 0 <= i < f.nonterminals@.len() && nt_name(#[trigger] f.nonterminals@[i]) == a
+    ||| exists|i: int| 0 <= i < f.terminal_enum.variants@.len() && (#[trigger] f.terminal_enum.variants@[i]).dollarless_name@ == a
+    ||| a == f.terminal_enum.name@
+}
+//@]
+
 impl File {
     //@[ T: iterator adapters / formatting outside the supported subset (body not verified)
     #[verifier::external_body]
     //@]
-    pub fn get_defined_identifiers(&self) -> HashSet<String> {
+    pub fn get_defined_identifiers(&self) -> /*@[*/(r: /*@]*/HashSet<String>/*@[*/)/*@]*/
+        //@[ assumed contract (T leaf): exactly the nonterminal names, the terminal variant names and the terminal enum name
+        ensures
+            forall|a: Seq<char>| crate::vx_hash::view_set(r@).contains(a) <==> defined_id(*self, a),
+            r@.len() <= self.nonterminals@.len() + self.terminal_enum.variants@.len() + 1,
+        //@]
+    {
         self.get_nonterminal_names()
             .chain(self.get_terminal_enum_variant_names())
             .chain(std::iter::once(self.terminal_enum.name.clone()))
